@@ -74,6 +74,14 @@ CHECKS = {
               "only (at most once, oldest first, slice k); the largest shapes (4-5 objects) run in the thorough tier."),
         technique="contract-based deductive verification: atomic-step contracts against a spec function (z3 arrays + LIA + quantified well-formedness), loop contracts for the wait instructions",
         design_ref="5.C12"),
+    "C11": dict(
+        category="proof",
+        text=("End-to-end symbolic execution of the real request path (EPRSocket call -> Builder -> assembler -> base Executor -> network stack -> qlink "
+              "conversion) and of the real result path (link-layer response -> executor -> shared memory -> SDK handles) with the application's "
+              "parameters (time unit/limit, rotations, random-basis sets, socket id) and the response fields symbolic, pair counts 1..3, K/M/R create "
+              "and K/M receive: every field of the LinkLayerCreate and every result handle proved equal to its source. One open known finding (type R not convertible)."),
+        technique="contract-based deductive verification: end-to-end symbolic execution of the real SDK/assembler/executor code with field-by-field postconditions, z3 LIA",
+        design_ref="5.C11"),
     "C19": dict(
         category="proof",
         text=("Loop-invariant proof of get_angle_spec_from_float over the reals for every angle and every tolerance in [1e-9, 1]: the real loop "
